@@ -28,6 +28,8 @@ type Tree struct {
 	Atom   []byte
 	Kind   string
 	Kids   []*Tree
+	// Names: for a struct node the field names of Kids (same length); nil for lists. Not part of the protocol form.
+	Names []string
 }
 
 func atom(b []byte) *Tree                { return &Tree{IsAtom: true, Atom: append([]byte{}, b...)} }
@@ -56,11 +58,13 @@ func dump(v reflect.Value) *Tree {
 	case reflect.Struct:
 		t := v.Type()
 		n := node(t.Name())
+		n.Names = []string{}
 		for i := 0; i < t.NumField(); i++ {
 			f := t.Field(i)
 			if f.Name == "_" {
 				continue
 			}
+			n.Names = append(n.Names, f.Name)
 			if f.Name == "lowered" || f.Name == "Metadata" {
 				n.Kids = append(n.Kids, atomS("-"))
 				continue
@@ -105,6 +109,58 @@ func dump(v reflect.Value) *Tree {
 		return n
 	}
 	panic(fmt.Sprintf("harness: sqlast: unsupported kind %s (%s)", v.Kind(), v.Type()))
+}
+
+// filled: the child holds something – a non-nil pointer to a node, a non-empty list, a non-empty string, `true`, a
+// number other than 0, a struct value with a filled field.
+func filled(k *Tree) bool {
+	if k.IsAtom {
+		return len(k.Atom) > 0 && string(k.Atom) != "false" && string(k.Atom) != "-" && string(k.Atom) != "0"
+	}
+	if k.Kind == "nil" {
+		return false
+	}
+	if k.Names == nil {
+		return len(k.Kids) > 0 // list
+	}
+	// a struct value (TableName, TableIdent, ColIdent): filled when one of its fields is
+	for _, c := range k.Kids {
+		if filled(c) {
+			return true
+		}
+	}
+	return false
+}
+
+// PresentFields: the names of the filled fields of a struct node, in declaration order.
+func PresentFields(t *Tree) []string {
+	var out []string
+	if t.IsAtom || len(t.Names) != len(t.Kids) {
+		return nil
+	}
+	for i, k := range t.Kids {
+		if filled(k) {
+			out = append(out, t.Names[i])
+		}
+	}
+	return out
+}
+
+// Census adds to m the multiset of clause kinds of the tree: `Type.Field` for every filled field of every struct
+// node and `#ListType` with the number of elements for every list.
+func Census(t *Tree, m map[string]int) {
+	if t.IsAtom {
+		return
+	}
+	if t.Names == nil && t.Kind != "nil" {
+		m["#"+t.Kind] += len(t.Kids)
+	}
+	for i, k := range t.Kids {
+		if len(t.Names) == len(t.Kids) && filled(k) {
+			m[t.Kind+"."+t.Names[i]]++
+		}
+		Census(k, m)
+	}
 }
 
 func hx(b []byte) string {
